@@ -21,7 +21,7 @@ func init() {
 func (c19) ID() string    { return "C19" }
 func (c19) Level() string { return "exploration" }
 func (c19) Rule() string {
-	return "A case is a seeded situation: a branch rule needing 1-3 of persons 1-3 (person 4 defined but not trusted), optionally a global threshold rule, optionally a file rule (1-2 of a subset of the persons) on the first or on every feature file, a feature history (1-3 commits by various actors) that is ahead of or diverged from the branch, and prior approvals for exactly the predicted merge (authorizations and code-review approvals by any subset of persons, possibly stale). The real VerifyMergeable gives the prediction; then, for each candidate recorder (a trusted person who has not approved, one who has, the untrusted person 4, an outsider key, unsigned) the same operations are re-executed from scratch (exact replay = a fork of the same state), the fast-forward or the pre-built merge commit carrying the predicted tree is recorded by that candidate, and VerifyRefFull is run. Oracle: the three-way contract of the statement per recorder. Distinct = distinct (threshold, global rule, approval set, shape, prediction, per-recorder outcome vector); non-trivial = the prediction was 'possible' in at least one form or approvals were present."
+	return "A case is a seeded situation: a branch rule needing 1-3 of persons 1-3 (person 4 defined but not trusted), optionally a global threshold rule, optionally a file rule (1-2 of a subset of the persons) on the first or on every feature file, a feature history (1-3 commits by various actors) that is ahead of or diverged from the branch, and prior approvals for exactly the predicted merge (authorizations and code-review approvals by any subset of persons, possibly stale). The real VerifyMergeable (in a third of the cases its for-a-commit form) gives the prediction; then, for each candidate recorder (a trusted person who has not approved, one who has, the untrusted person 4, an outsider key, unsigned) the same operations are re-executed from scratch (exact replay = a fork of the same state), the fast-forward or the pre-built merge commit carrying the predicted tree is recorded by that candidate, and VerifyRefFull is run. Oracle: the three-way contract of the statement per recorder. Distinct = distinct (threshold, global rule, approval set, shape, prediction, per-recorder outcome vector); non-trivial = the prediction was 'possible' in at least one form or approvals were present."
 }
 func (c19) Components() map[string]string {
 	return map[string]string{"internal/policy (verifyMergeable, verifier)": "real", "internal/attestations": "real", "GetMergeTree": "stub (SimStore per-path three-way merge; real `git merge-tree` is exercised by the git-backed checks)", "gitstore.Storer": "stub (SimStore)"}
@@ -158,6 +158,12 @@ func (d c19) Execute(c *core.Case) *core.Result {
 		var perr error
 		o := obs.RunOp(0, func() error {
 			need, perr = world.VerifyMergeable(oh, mainRef, featRef)
+			if c.Seed%3 == 0 {
+				// the other form of the same check: the feature given as a commit
+				if pf := run.L.PositionsForRef(featRef); len(pf) > 0 {
+					need, perr = world.VerifyMergeableForCommit(oh, mainRef, w.Entries[pf[len(pf)-1]].Target)
+				}
+			}
 			return nil
 		})
 		if o.Panic != nil {
@@ -289,6 +295,7 @@ func (d c19) Execute(c *core.Case) *core.Result {
 	res.Stat("probe:predicted_no_signature_needed", boolInt(predClass == "accept" && !predNeed))
 	res.Stat("probe:predicted_not_possible", boolInt(predClass != "accept"))
 	res.Stat("probe:diverged_merge_commit", boolInt(c.Flags["diverged"]))
+	res.Stat("probe:prediction_for_commit_form", boolInt(c.Seed%3 == 0))
 	res.Stat("probe:file_rule_on_feature_path", boolInt(c.Flags["fileRule"] && !c.Flags["diverged"]))
 	res.Sample = map[string]any{"ops": describeOps(c.Ops), "threshold": c.Config["thr"], "prediction(class/needs-signature)": fmt.Sprintf("%s/%v", predClass, predNeed), "already_counted_persons": fmt.Sprint(approvers), "verdict_per_recorder[p1,p2,p3,p4,outsider,unsigned]": vec}
 	return res
